@@ -157,7 +157,21 @@ def fresh_pager(st, concrete_empty=False):
     bitmap = PyVec([b0, b1] + [bv(0, 8)] * (PAGE - 2))
     st.env["$pager"] = Struct("Pager", {0: Opaque("path"), 1: Opaque("file"), 2: Struct("Meta", {4: nxt}), 3: Struct("Bitmap", {0: bitmap})})
     st.env["$file_len"] = z3.BitVec("file_len", 64) if not concrete_empty else bv(2 * PAGE, 64)
+    st.env["$disk_1"] = PyVec(list(bitmap.items))          # the bitmap page on disk agrees with memory (what open() establishes)
     return Ref("$pager"), b0, b1, nxt
+
+
+def disk_bitmap_agrees(mf, ex, p, failed, what):
+    """After the step and a Pager::sync() the bitmap page of the file must equal the in-memory bitmap: nothing else ever writes it
+    (close / checkpoint only sync the file), so a stale page means a reopened database sees a different allocation state."""
+    ex2, paths = pcall(mf, PG + r"sync\(", [Ref("$pager")], p.st)
+    for q in ok_paths(paths, "Pager::sync"):
+        if not (isinstance(q.ret, Enum) and q.ret.variant == "Ok"):
+            continue
+        img = q.st.env.get("$disk_1")
+        mem = q.st.env["$pager"].fields[3].fields[0].items
+        if not isinstance(img, PyVec) or not ex2.entails(q.pc, z3.And(img.items[0] == mem[0], img.items[1] == mem[1])):
+            failed.append("after %s and Pager::sync() the allocation bitmap on disk differs from the one in memory: a clean close + reopen loses the change" % what)
 
 
 def bit(b0, b1, i):
@@ -197,6 +211,7 @@ def run_allocate(mf, tier):
                 failed.append(msg)
         if not all(z3.is_bv_value(z3.simplify(x)) and z3.simplify(x).as_long() == 0 for x in bm[2:6]):
             failed.append("allocation touches bitmap bytes of unrelated pages")
+        disk_bitmap_agrees(mf, ex, p, failed, "allocate_page")
         second.append(p)
     # two allocations in a row never return the same page
     for p in second[:6]:
@@ -231,6 +246,7 @@ def run_free_then_allocate(mf, tier):
             ok_ret = isinstance(p.ret, Enum) and p.ret.variant == "Ok"
             nb0, nb1, nnxt, bm = pager_state(p.st)
             if ok_ret:
+                disk_bitmap_agrees(mf, ex, p, failed, "free_page")
                 if not ex.entails(p.pc, was == 1):
                     failed.append("free_page succeeds on a page that is not allocated")
                 for i in range(NPAGES):
